@@ -25,7 +25,7 @@ class Undefined(Exception):
 def to_pym(e):
     import pymbolic.primitives as p
     k = e[0]
-    if k == "num":
+    if k in ("num", "bool"):
         return e[1]
     if k == "cnum":
         return complex(e[1], e[2])
@@ -63,6 +63,8 @@ def to_pym(e):
         return p.Call(p.Variable(e[1]), args)
     if k == "sub":
         return p.Subscript(to_pym(e[1]), to_pym(e[2]))
+    if k == "msub":
+        return p.Subscript(to_pym(e[1]), tuple(to_pym(x) for x in e[2:]))
     if k == "min":
         return p.Min(tuple(to_pym(x) for x in e[1:]))
     if k == "max":
@@ -149,7 +151,7 @@ def variables(e, acc=None, funcs=None):
     if acc is None:
         acc = set()
     k = e[0]
-    if k in ("num", "cnum"):
+    if k in ("num", "cnum", "bool"):
         return acc
     if k == "var":
         acc.add(e[1])
@@ -171,7 +173,7 @@ def variables(e, acc=None, funcs=None):
 
 def size(e):
     k = e[0]
-    if k in ("num", "cnum", "var"):
+    if k in ("num", "cnum", "var", "bool"):
         return 1
     if k == "cmp":
         return 1 + size(e[2]) + size(e[3])
@@ -184,7 +186,7 @@ def has(e, kinds):
     k = e[0]
     if k in kinds:
         return True
-    if k in ("num", "cnum", "var"):
+    if k in ("num", "cnum", "var", "bool"):
         return False
     if k == "cmp":
         return has(e[2], kinds) or has(e[3], kinds)
@@ -205,7 +207,8 @@ def is_boolish(v):
 
 
 def is_num(v):
-    return isinstance(v, (int, float, complex, np.number)) and not is_boolish(v)
+    from fractions import Fraction
+    return isinstance(v, (int, float, complex, np.number, Fraction)) and not is_boolish(v)
 
 
 class Env:
@@ -213,7 +216,8 @@ class Env:
     unassigned names; `whole_array_read(arr)` lets the owner veto reads of
     arrays with undefined elements."""
 
-    def __init__(self, store, funcs, on_read=None, elem_defined=None, on_call=None):
+    def __init__(self, store, funcs, on_read=None, elem_defined=None, on_call=None, numconv=None):
+        self.numconv = numconv
         self.store = store
         self.funcs = funcs
         self.on_read = on_read
@@ -233,6 +237,8 @@ def ev(e, env, whole=True):
     fully defined)."""
     k = e[0]
     if k == "num":
+        return env.numconv(e[1]) if env.numconv is not None else e[1]
+    if k == "bool":
         return e[1]
     if k == "cnum":
         return complex(e[1], e[2])
@@ -278,6 +284,17 @@ def ev(e, env, whole=True):
             raise Undefined("arithmetic-on-flag")
         if isinstance(b, np.ndarray):
             raise Undefined("array-exponent")
+        if env.numconv is not None:
+            # exact mode: only integral exponents of moderate size stay exact
+            if isinstance(a, np.ndarray) or b != int(b) or abs(b) > 64:
+                raise Undefined("inexact-power")
+            b = int(b)
+            if isinstance(a, int):
+                from fractions import Fraction
+                a = Fraction(a)
+            if a == 0 and b < 0:
+                raise Undefined("division-by-zero")
+            return a ** b
         if not isinstance(a, np.ndarray):
             if a == 0 and b < 0:
                 raise Undefined("division-by-zero")
@@ -345,6 +362,15 @@ def ev(e, env, whole=True):
         if env.elem_defined is not None and not env.elem_defined(agg, idx):
             raise Undefined("read-undefined-array-element")
         return agg[idx]
+    if k == "msub":
+        agg = ev(e[1], env, whole=False)
+        idx = [ev(x, env) for x in e[2:]]
+        if not isinstance(agg, np.ndarray) or agg.ndim != len(idx):
+            raise Undefined("subscript-of-non-array")
+        for i, n in zip(idx, agg.shape):
+            if is_boolish(i) or not is_num(i) or isinstance(i, complex) or i != int(i) or not 0 <= int(i) < n:
+                raise Undefined("subscript-out-of-range")
+        return agg[tuple(int(i) for i in idx)]
     if k in ("min", "max"):
         vals = [ev(x, env) for x in e[1:]]
         for v in vals:
@@ -453,4 +479,216 @@ def from_jsonable(v):
         return float("inf")
     if v == "-inf":
         return float("-inf")
+    return v
+
+
+# {{{ pymbolic -> sexpr (own isinstance dispatch; used to observe what the real
+# code returns without going through a pymbolic mapper)
+
+def from_pym(x):
+    import pymbolic.primitives as p
+    if isinstance(x, (bool, np.bool_)):
+        return ["bool", bool(x)]
+    if isinstance(x, (int, np.integer)):
+        return ["num", int(x)]
+    if isinstance(x, (float, np.floating)):
+        return ["num", float(x)]
+    if isinstance(x, (complex, np.complexfloating)):
+        return ["cnum", float(x.real), float(x.imag)]
+    if isinstance(x, p.Variable):
+        return ["var", x.name]
+    if isinstance(x, p.Sum):
+        return ["+"] + [from_pym(c) for c in x.children]
+    if isinstance(x, p.Product):
+        return ["*"] + [from_pym(c) for c in x.children]
+    if isinstance(x, p.Quotient):
+        return ["/", from_pym(x.numerator), from_pym(x.denominator)]
+    if isinstance(x, p.Power):
+        return ["**", from_pym(x.base), from_pym(x.exponent)]
+    if isinstance(x, p.Comparison):
+        return ["cmp", x.operator, from_pym(x.left), from_pym(x.right)]
+    if isinstance(x, p.LogicalAnd):
+        return ["and"] + [from_pym(c) for c in x.children]
+    if isinstance(x, p.LogicalOr):
+        return ["or"] + [from_pym(c) for c in x.children]
+    if isinstance(x, p.LogicalNot):
+        return ["not", from_pym(x.child)]
+    if isinstance(x, p.If):
+        return ["if", from_pym(x.condition), from_pym(x.then), from_pym(x.else_)]
+    if isinstance(x, p.CallWithKwargs):
+        return ["call", _fname(x.function), [from_pym(a) for a in x.parameters],
+                {k: from_pym(v) for k, v in x.kw_parameters.items()}]
+    if isinstance(x, p.Call):
+        return ["call", _fname(x.function), [from_pym(a) for a in x.parameters], {}]
+    if isinstance(x, p.Subscript):
+        idx = x.index
+        if isinstance(idx, tuple):
+            if len(idx) != 1:
+                return ["msub", from_pym(x.aggregate)] + [from_pym(i) for i in idx]
+            idx = idx[0]
+        return ["sub", from_pym(x.aggregate), from_pym(idx)]
+    if isinstance(x, p.Min):
+        return ["min"] + [from_pym(c) for c in x.children]
+    if isinstance(x, p.Max):
+        return ["max"] + [from_pym(c) for c in x.children]
+    raise ValueError(f"from_pym: unsupported node {type(x).__name__}: {x!r}")
+
+
+def _fname(f):
+    import pymbolic.primitives as p
+    if isinstance(f, p.Variable):
+        return f.name
+    raise ValueError(f"call of non-symbol {f!r}")
+
+# }}}
+
+
+class UFuncs:
+    """Function table of hash-based *uninterpreted* pure functions: the same
+    (salt, name, args, kwargs) always gives the same small integer."""
+
+    def __init__(self, salt, log=None):
+        self.salt = salt
+        self.log = log
+
+    def get(self, name, default=None):
+        def f(*args, **kw):
+            import hashlib
+            key = repr((self.salt, name, tuple(_hkey(a) for a in args),
+                        tuple(sorted((k, _hkey(v)) for k, v in kw.items()))))
+            v = int.from_bytes(hashlib.blake2b(key.encode(), digest_size=4).digest(), "big") % 997 + 2
+            if self.log is not None:
+                self.log.append((name, tuple(_hkey(a) for a in args),
+                                 tuple(sorted((k, _hkey(v)) for k, v in kw.items()))))
+            return v
+        return f
+
+
+def _hkey(v):
+    if isinstance(v, np.ndarray):
+        return ("arr",) + tuple(_hkey(x) for x in v.tolist())
+    if is_boolish(v):
+        return ("b", bool(v))
+    if isinstance(v, (int, np.integer)):
+        return ("n", float(v))
+    if isinstance(v, (float, np.floating)):
+        return ("n", float(v))
+    if isinstance(v, (complex, np.complexfloating)):
+        return ("c", float(v.real), float(v.imag))
+    return ("o", repr(v))
+
+
+# {{{ generic subtree minimiser (bounded greedy delta debugging on sexprs)
+
+def children_paths(e):
+    k = e[0]
+    if k in ("num", "cnum", "var", "bool"):
+        return []
+    if k == "cmp":
+        return [(2,), (3,)]
+    if k == "call":
+        return [(2, i) for i in range(len(e[2]))] + [(3, n) for n in (e[3] if len(e) > 3 else {})]
+    return [(i,) for i in range(1, len(e))]
+
+
+def get_at(e, path):
+    for p in path:
+        e = e[p]
+    return e
+
+
+def set_at(e, path, new):
+    if not path:
+        return new
+    e = list(e) if isinstance(e, list) else dict(e)
+    e[path[0]] = set_at(e[path[0]], path[1:], new)
+    return e
+
+
+def minimise(e, fails, budget=200, leaves=(["var", "x"], ["num", 2])):
+    """Smallest sub-expression / leaf-substituted variant on which fails() is
+    still true (same reason code is the caller's business)."""
+    n = [0]
+
+    def f(x):
+        n[0] += 1
+        if n[0] > budget:
+            return False
+        try:
+            return bool(fails(x))
+        except Exception:
+            return False
+    changed = True
+    while changed and n[0] <= budget:
+        changed = False
+        for path in children_paths(e):
+            sub = get_at(e, path)
+            if isinstance(sub, list) and f(sub):
+                e = sub
+                changed = True
+                break
+        if changed:
+            continue
+        for path in children_paths(e):
+            sub = get_at(e, path)
+            if not isinstance(sub, list) or sub[0] in ("num", "var", "cnum", "bool"):
+                continue
+            for leaf in leaves:
+                cand = set_at(e, path, leaf)
+                if f(cand):
+                    e = cand
+                    changed = True
+                    break
+            if changed:
+                break
+            # descend: try minimising the child in place
+            for gpath in children_paths(sub):
+                g = get_at(sub, gpath)
+                if isinstance(g, list):
+                    cand = set_at(e, path, g)
+                    if f(cand):
+                        e = cand
+                        changed = True
+                        break
+            if changed:
+                break
+    return e
+
+# }}}
+
+
+class LinFuncs:
+    """Function table for exact (Fraction) evaluation: every function is an
+    affine map with small hashed rational coefficients per (name, argument
+    position / keyword), so it separates argument order, keyword names and
+    values without amplifying re-association."""
+
+    def __init__(self, salt):
+        self.salt = salt
+
+    def _c(self, *key):
+        import hashlib
+        from fractions import Fraction
+        h = int.from_bytes(hashlib.blake2b(repr((self.salt,) + key).encode(), digest_size=2).digest(), "big")
+        return Fraction(h % 13 + 1, 2)
+
+    def get(self, name, default=None):
+        def f(*args, **kw):
+            acc = self._c(name, "c0")
+            for i, a in enumerate(args):
+                acc = acc + self._c(name, i) * _tot(a)
+            for k, v in kw.items():
+                acc = acc + self._c(name, "kw", k) * _tot(v)
+            return acc
+        return f
+
+
+def _tot(v):
+    if isinstance(v, np.ndarray):
+        t = 0
+        for i, x in enumerate(v.ravel().tolist()):
+            t = t + (i + 1) * x
+        return t
+    if is_boolish(v):
+        return 3 if v else 5
     return v
